@@ -24,7 +24,7 @@ def one(e, base):
         import glob
         from rename_locals import rename_module
         for p in glob.glob(os.path.join(d, 'optree', '**', '*.py'), recursive=True):
-            out, _ = rename_module(open(p).read())
+            out, _ = rename_module(open(p).read(), posonly=bool(e.get('posonly')))
             open(p, 'w').write(out)
     elif e.get('generator') == 'rename-cxx-locals':
         env = dict(os.environ, OPTREE_VERIF_CACHE=os.path.join(base, 'cache'), OPTREE_VERIF_CACHE_KEEP='500')
